@@ -270,17 +270,23 @@ def variable_expected(p: Pep, rules, ngroups, cgroups, max_mods):
 
 
 def count_forms(p, rules, ngroups, cgroups, max_mods, mode):
+    """upper estimate of the number of forms (a cost bound for the workload, not an oracle)"""
     base = base_fields(p)
-    g = {}
+    g, free = {}, 1
     for pat, gs in rules.items():
         for i in sites_of(p.seq, pat):
-            if mode != 'skip' or (base['internal'] or {}).get(i) is None:
+            if (base['internal'] or {}).get(i) is None:
                 g[i] = g.get(i, 0) + len(gs)
-    e = [1] + [0] * max_mods          # elementary symmetric polynomials of the group counts
-    for c in g.values():
+            elif mode != 'skip':
+                g[('pre', i)] = g.get(('pre', i), 0) + len(gs)
+    e = [1] + [0] * max_mods          # elementary symmetric polynomials of the group counts (unmodified sites)
+    for k_, c in g.items():
+        if isinstance(k_, tuple):
+            free *= (1 + c)          # re-modifying an already modified residue is not counted against max_mods
+            continue
         for k in range(max_mods, 0, -1):
             e[k] += e[k - 1] * c
-    return sum(e) * (1 + len(ngroups)) * (1 + len(cgroups)) * (1 + len(ngroups)) * (1 + len(cgroups))
+    return sum(e) * free * (1 + len(ngroups)) * (1 + len(cgroups)) * (1 + len(ngroups)) * (1 + len(cgroups))
 
 
 def form_key(a):
@@ -299,6 +305,10 @@ def run_variable(ctx, st, pt, p: Pep):
     # keep the enumeration bounded: lower max_mods until the expected number of forms is small
     while max_mods > 0 and count_forms(p, rules, ngroups, cgroups, max_mods, mode) > 1500:
         max_mods -= 1
+    if count_forms(p, rules, ngroups, cgroups, max_mods, mode) > 20000:
+        mode = 'skip'     # append/overwrite over many pre-modified sites grows exponentially whatever max_mods is
+        while max_mods > 0 and count_forms(p, rules, ngroups, cgroups, max_mods, mode) > 1500:
+            max_mods -= 1
     rt = rng.choice(['str', 'annotation'])
     case = {'fn': 'variable', 'pep': rp.to_json(p), 'text': text, 'rules': rules, 'nterm': nspec, 'cterm': cspec,
             'max_mods': max_mods, 'mode': mode, 'return_type': rt}
